@@ -389,8 +389,9 @@ def parse_output(output):
     outs, shows, dbs = [], {}, None
     for line in output.splitlines():
         if line.startswith('"OUT '):
-            term, ty, sizes, dup, ref = lib.fast_parse_tla(line[5:-1].replace('\\"', '"'))
-            outs.append((term, ty, sorted(sizes), dup, tuple(ref)))
+            term, ty, sizes, dup, ref, refm = lib.fast_parse_tla(
+                line[5:-1].replace('\\"', '"'))
+            outs.append((term, ty, sorted(sizes), dup, (tuple(ref), refm)))
         elif line.startswith('"SHOW '):
             term, shown = lib.fast_parse_tla(line[6:-1].replace('\\"', '"'))
             shows[term] = shown
@@ -454,9 +455,13 @@ def judge(term, ty, sizes, dup, shown, tdbs, want, ref=None):
                               f"evaluated values have type {exp}"))
     # the compiler's claim next to the specification's reference inference
     if ref is not None and claims.get('card') in BOUNDS:
+        (rlo, rhi), refm = ref
         lo, hi = BOUNDS[claims['card']]
         hi = 2 if hi is None else hi
-        rlo, rhi = ref
+        if claims.get('mult') in ('UNIQUE', 'DUPLICATE'):
+            cm = 'U' if claims['mult'] == 'UNIQUE' else 'D'
+            res['mult_vs_reference'] = ('same' if cm == refm else
+                                        'tighter' if cm == 'U' else 'looser')
         if (lo, hi) == (rlo, min(rhi, 2)) or (rhi == 0 and hi <= 1 and lo == 0):
             res['vs_reference'] = 'same'
         elif lo >= rlo and hi <= max(rhi, 1 if rhi == 0 else rhi):
@@ -482,6 +487,8 @@ def _job(args):
         counts[r['status']] += 1
         if r.get('vs_reference'):
             counts['ref:' + r['vs_reference']] += 1
+        if r.get('mult_vs_reference'):
+            counts['refm:' + r['mult_vs_reference']] += 1
         counts['toy:' + r.get('toy', 'n/a').split(':')[0]] += 1
         if r['status'] in ('VIOLATION', 'drift'):
             out.append(dict(status=r['status'], term=_js(term), text=r['text'],
@@ -567,6 +574,8 @@ def run(pid, tier, seed, rep):
                unrenderable=totals['unrenderable'],
                compiler_vs_reference_inference={k[4:]: v for k, v in totals.items()
                                                 if k.startswith('ref:')},
+               compiler_vs_reference_multiplicity={k[5:]: v for k, v in totals.items()
+                                                   if k.startswith('refm:')},
                evaluations=n, distinct_nontrivial=totals['ok'] + totals['VIOLATION'],
                rule='one case = one term of the EdgeQLSem.tla universe, evaluated '
                     'by TLC on every database of the family, compiled by the real '
